@@ -184,6 +184,42 @@ pub fn replay_kept(case: &Value, _run: &Run) -> Acc {
     acc
 }
 
+/// arguments reached through an index (positive, negative, out of range on either side): a negative index before
+/// the start of the array selects nothing, it does not wrap
+fn indexed_args_part() -> Acc {
+    let arrays: Vec<Value> = vec![json!([]), json!([1]), json!(["a", 1]), json!([[1], "a", 2]), json!([1, [1], [[1]], "a"]), json!([null, [], {}, [null], 0])];
+    let l = json!([1, "a", [1], null, 2]);
+    let pick = |a: &Value, i: i64| -> Option<Value> {
+        let v = a.as_array()?;
+        let n = v.len() as i64;
+        let k = if i >= 0 { i } else { n + i };
+        if k >= 0 && k < n {
+            Some(v[k as usize].clone())
+        } else {
+            None
+        }
+    };
+    let cells: Vec<Option<Value>> = arrays.iter().cloned().map(Some).collect();
+    let mut acc = Acc::new();
+    let doc = cell_doc(&Some(l.clone()), &cells, false);
+    for i in -7i64..=7 {
+        for f in ["in", "nin"] {
+            let expect: Vec<bool> = arrays.iter().map(|a| oracle(f, &pick(a, i), &Some(l.clone()))).collect();
+            judge(&mut acc, &format!("$.elems[?{}(@.x[{}],$.l)]", f, i), &doc, &expect, "arguments reached through an index", &|k| format!("{}({}[{}], {}) must be {}", f, arrays[k], i, l, expect[k]));
+            let expect2: Vec<bool> = arrays.iter().map(|a| oracle(f, &pick(&l, i), &Some(a.clone()))).collect();
+            judge(&mut acc, &format!("$.elems[?{}($.l[{}],@.x)]", f, i), &doc, &expect2, "arguments reached through an index", &|k| format!("{}({}[{}], {}) must be {}", f, l, i, arrays[k], expect2[k]));
+        }
+        for f in ["any_of", "none_of", "subset_of"] {
+            let expect: Vec<bool> = arrays.iter().map(|a| oracle(f, &pick(a, i), &Some(l.clone()))).collect();
+            judge(&mut acc, &format!("$.elems[?{}(@.x[{}],$.l)]", f, i), &doc, &expect, "arguments reached through an index", &|k| format!("{}({}[{}], {}) must be {}", f, arrays[k], i, l, expect[k]));
+            let expect2: Vec<bool> = arrays.iter().map(|a| oracle(f, &Some(a.clone()), &pick(&json!([l.clone(), [1], "a", [[1]]]), i))).collect();
+            let doc2 = cell_doc(&Some(json!([l.clone(), [1], "a", [[1]]])), &cells, false);
+            judge(&mut acc, &format!("$.elems[?{}(@.x,$.l[{}])]", f, i), &doc2, &expect2, "arguments reached through an index", &|k| format!("{}({}, l[{}]) must be {}", f, arrays[k], i, expect2[k]));
+        }
+    }
+    acc
+}
+
 /// integers above i64::MAX (stored as u64): neighbours that round to one f64 are different elements
 fn big_integers_part() -> Acc {
     let a = json!(18446744073709551615u64);
@@ -447,7 +483,7 @@ pub fn run(tier: &str) -> i32 {
         }
         acc
     };
-    let acc = acc.merge(long_acc).merge(aliased_part(th)).merge(literal_spellings_part()).merge(relative_pairs_part(th)).merge(computed_first_part()).merge(big_integers_part());
+    let acc = acc.merge(long_acc).merge(aliased_part(th)).merge(literal_spellings_part()).merge(relative_pairs_part(th)).merge(computed_first_part()).merge(big_integers_part()).merge(indexed_args_part());
     run.finish(
         acc,
         "one case = one (function, first argument, second argument, argument form); all first arguments are packed into one document per second argument; aliased arguments: both arguments from the document, as one node (`f(@.x,@.x)`, `f(@,@)`) and through an absolute path to a member of child k for every k; oracle = set membership as the property states it (false for a missing or non-array argument); non-trivial = the test is true",
